@@ -3,6 +3,7 @@ package main
 import (
 	"bytes"
 	"fmt"
+	"sort"
 
 	"github.com/go-gts/gts"
 )
@@ -78,7 +79,71 @@ func specAccepts(q, s byte) bool {
 	return subset(ss, qs)
 }
 
+// sizes far beyond the small sweeps: very long runs in a query, sequences of
+// several MiB with hits at and around multiples of 2^20 (implementation only)
+func runC18Large(o *Out) {
+	safe := func(name string, f func() []gts.Segment) ([]gts.Segment, bool) {
+		var out []gts.Segment
+		ok := true
+		func() {
+			defer func() {
+				if r := recover(); r != nil {
+					ok = false
+					o.Violate("panic", name, fmt.Sprint(r))
+				}
+			}()
+			out = f()
+		}()
+		return out, ok
+	}
+	// queries with runs of 999..2500 identical letters
+	for _, run := range []int{999, 1000, 1001, 1002, 1500, 2500} {
+		for _, c := range []byte{'a', 'n', 'r'} {
+			q := bytes.Repeat([]byte{c}, run)
+			q = append(append([]byte("gt"), q...), 'c')
+			seq := append(append([]byte("ttgt"), bytes.Repeat([]byte{'a'}, run)...), []byte("cgg")...)
+			name := fmt.Sprintf("Match with a run of %d x %q", run, c)
+			segs, ok := safe(name, func() []gts.Segment { return gts.Match(gts.New(nil, nil, seq), gts.New(nil, nil, q)) })
+			if ok && (len(segs) != 1 || segs[0][0] != 2 || segs[0][1] != 2+len(q)) {
+				o.Violate("match-long-run", name, fmt.Sprintf("%v", segs))
+			}
+		}
+	}
+	// exact search in 2.5 MiB: every occurrence once, also those that start at,
+	// just before and just after a multiple of 2^20
+	n := 5 << 19
+	seq := make([]byte, n)
+	for i := range seq {
+		seq[i] = "ac"[i%2]
+	}
+	pat := []byte("ggtcgg")
+	var want []int
+	for _, off := range []int{100, 1<<20 - 6, 1<<20 - 3, 1 << 20, 1<<20 + 1, 1<<21 - 1, 1 << 21, 1<<21 + 7, n - 6} {
+		copy(seq[off:], pat)
+	}
+	for i := 0; i+len(pat) <= n; {
+		j := bytes.Index(seq[i:], pat)
+		if j < 0 {
+			break
+		}
+		want = append(want, i+j)
+		i += j + 1
+	}
+	segs, ok := safe("Search in 2.5 MiB", func() []gts.Segment { return gts.Search(gts.New(nil, nil, seq), gts.New(nil, nil, pat)) })
+	if ok {
+		var got []int
+		for _, sg := range segs {
+			got = append(got, sg[0])
+		}
+		sort.Ints(got)
+		if fmt.Sprint(got) != fmt.Sprint(want) {
+			o.Violate("search-large", "Search in 2.5 MiB, hits around multiples of 2^20", fmt.Sprintf("got %v want %v", got, want))
+		}
+	}
+}
+
 func runC18(o *Out) {
+	runC18Large(o)
 	// all 256 byte values through Complement / Transcribe (the model covers ASCII;
 	// bytes >= 128 are compared too: replaceBytes is byte-wise)
 	all := make([]byte, 256)
